@@ -24,6 +24,25 @@ def event_seq_read(f):
     return False
 
 
+def crate_fns_all(P):
+    return [g for g in P.fns.values() if g.crate == 'rip_tui']
+
+
+def counter_step(g, b):
+    """`x + <small constant>` on a 64-bit counter: counting frames cannot overflow in any finite run worth the name."""
+    if not b['t'].get('msg', '').startswith('Overflow(Add'):
+        return False
+    for st in b['s']:
+        rv = st.get('rv')
+        if rv and rv['k'] == 'bin' and rv['op'].startswith('Add'):
+            k = op_const(rv['a'][1])
+            try:
+                return k is not None and 0 <= int(k.get('v')) <= 4096 and re.search(r'u64|usize|u128|i64', g.lty(op_place(rv['a'][0])['l']) or '') is not None
+            except Exception:
+                return False
+    return False
+
+
 def run(ctx):
     P = ctx.prog
     E = Effects(P)
@@ -178,6 +197,21 @@ def run(ctx):
                'no explicit panic, clamp, or arithmetic / bounds assert' if not bad_ui and not bad_as else
                ('%s can panic on the state a frame sequence left behind (e.g. clamp(min, max) with min > max after out-of-order frames)' % bad_ui[0].callee if bad_ui else 'assert: %s' % bad_as[0].get('msg')),
                line=bad_ui[0].line if bad_ui else (bad_as[0].get('ln') if bad_as else g.line))
+    # the headless renderers (`rip run --headless --view …`) consume the same frame sequences: render_message and
+    # everything of the crate it reaches (the metrics accumulator included) is as total as the fold
+    P.fn('rip::render_message')
+    hl = [P.fns[p_] for p_ in sorted(P.reach_fns(['rip::render_message'])) if p_ in P.fns and P.fns[p_].crate == 'rip']
+    ctx.floor('C20.2', 'functions of the headless renderers', len(hl), 4)
+    for g in hl:
+        if g in ui:
+            continue
+        ctx.touch(g)
+        bad_ui = [s_ for s_ in g.sites() if re.search(PANICS, s_.callee) and not s_.expn]
+        bad_as = [b['t'] for b in g.blocks if b['t']['k'] == 'assert' and not b['cl'] and not counter_step(g, b)]
+        ctx.ob('C20.2', g, 'headless-renderer-total', not bad_ui and not bad_as,
+               'no explicit panic, or arithmetic / bounds assert' if not bad_ui and not bad_as else
+               ('%s can panic on a frame-supplied value' % bad_ui[0].callee if bad_ui else 'unchecked arithmetic / index on frame-supplied values (assert: %s): e.g. timestamps that go backwards make `end - start` overflow' % bad_as[0].get('msg')),
+               line=bad_ui[0].line if bad_ui else (bad_as[0].get('ln') if bad_as else g.line))
     ctx.ob('C20.2', 'rip_tui', 'fold-scanned', True, '%d functions reachable from update / FrameStore / summary scanned for panics (%d reachable incl. external leaves)' % (len(local), len(par)))
     for eff in ('Clock', 'Random', 'Env', 'HashOrder'):
         hits = []
@@ -243,6 +277,39 @@ def run(ctx):
                                                        ' and is NEVER evicted: one entry per frame-supplied id, without bound'), line=grows[fld].line)
     ctx.floor('C20.4', 'growing container fields', ngrow, 5)
 
+
+    # ---------------------------------------------------------------- C20.7
+    ctx.rule('C20.7', 'memory follows the frames held, not the configured cap: no function of rip_tui (constructors, fold, accessors, renderers) sizes an allocation (with_capacity / reserve / resize / repeat / vec![_; n]) by a value that is not a constant, a length of something already held, a 16-bit terminal dimension, or a min() with a constant. The caps are limits ("all capacity settings", usize::MAX = keep everything): pre-allocating them crashes or exhausts memory before the first frame.')
+    SIZED = r'::(with_capacity|with_capacity_in|reserve|reserve_exact|resize|resize_with|from_elem|repeat)$'
+    n7 = 0
+    for g in crate_fns_all(P):
+        for s_ in g.sites():
+            if not re.search(SIZED, s_.callee or '') or s_.expn and not re.search(r'from_elem$', s_.callee):
+                continue
+            if not s_.args:
+                continue
+            szop = s_.args[1] if re.search(r'::(reserve|reserve_exact|resize|resize_with|repeat)$', s_.callee) and len(s_.args) > 1 else s_.args[-1] if not re.search(r'from_elem$', s_.callee) else s_.args[1]
+            n7 += 1
+            unb = []
+            for x in sources(g, szop):
+                if x[0] == 'const':
+                    continue
+                if x[0] == 'call' and re.search(r'::(len|count|width|height)$', x[1] or ''):
+                    continue
+                if x[0] == 'call' and re.search(r'::min$|::clamp$', x[1] or ''):
+                    mc = [c_ for c_ in g.sites() if c_.bb == x[2]]
+                    if mc and any(op_const(a_) is not None for a_ in mc[0].args):
+                        continue
+                if x[0] == 'param' and re.search(r'^u(8|16)$', g.lty(x[1]) or ''):
+                    continue
+                unb.append(x)
+            ctx.touch(g)
+            ctx.ob('C20.7', g, 'allocation-not-sized-by-setting:' + s_.name, not unb,
+                   '%s is sized by a bounded value' % s_.name if not unb else
+                   '%s is sized by %s: a large cap ("keep everything") or a frame-supplied number allocates up front — capacity overflow panic / allocation failure before a frame is folded' % (
+                       s_.name, 'parameter `%s`' % g.lname(unb[0][1]) if unb[0][0] == 'param' else str(unb[0][1]).rsplit('::', 1)[-1]), line=s_.line)
+    ctx.ob('C20.7', 'rip_tui', 'allocations-scanned', True, '%d size-parameterised allocation site(s) in %d functions of rip_tui' % (n7, len(crate_fns_all(P))))
+    ctx.floor('C20.7', 'functions of rip_tui scanned for sized allocations', len(crate_fns_all(P)), 60)
 
     # ---------------------------------------------------------------- C20.5
     ctx.rule('C20.5', 'the frame window is bounded by its own length: in FrameStore::push the push into the frame deque is dominated by a comparison of that deque\'s len() with the configured cap, and the "full" edge of that comparison passes a pop before the push. A cap enforced through seq arithmetic (offset from base_seq) instead of the length stops evicting as soon as seqs repeat, go backwards or come from several streams.')
